@@ -102,11 +102,55 @@ def bad_gate(kind):
 _sim = {}
 
 
-def cirq_sim(n_shots=None):
+NOISY_NAMES = ["H", "X", "RX", "RY", "RZ", "PHASE", "CNOT", "CX", "CRZ", "SWAP"]
+
+
+def noise_model(kind):
+    """Noise on every gate name of the alphabet (one-target, controlled, multi-controlled, two-target gates)."""
+    from tangelo.linq.noisy_simulation import NoiseModel
+    nm = NoiseModel()
+    for name in NOISY_NAMES:
+        if kind in ("depol", "both"):
+            nm.add_quantum_error(name, "depol", 0.05)
+        if kind in ("pauli", "both"):
+            nm.add_quantum_error(name, "pauli", [0.01, 0.02, 0.03])
+    return nm
+
+
+def cirq_sim(n_shots=None, noise=None):
     from tangelo.linq import get_backend
-    if n_shots not in _sim:
-        _sim[n_shots] = get_backend("cirq", n_shots=n_shots)
-    return _sim[n_shots]
+    key = (n_shots, noise)
+    if key not in _sim:
+        _sim[key] = get_backend("cirq", n_shots=n_shots, noise_model=noise_model(noise) if noise else None)
+    return _sim[key]
+
+
+def do_translate(o, fmt):
+    from tangelo.linq.translator import translate_circuit
+    if ":" not in fmt:
+        return translate_circuit(o, fmt)
+    target, opt = fmt.split(":")
+    options = {"save_measurements": True} if opt == "savemeas" else {"noise_model": noise_model(opt)}
+    return translate_circuit(o, target, output_options=options)
+
+
+def do_simulate(o, form):
+    import numpy as np
+    np.random.seed(1)
+    mixed = o.is_mixed_state
+    if form in ("depol", "pauli"):
+        return cirq_sim(20, form).simulate(o)
+    if form == "initsv":
+        sv = np.zeros(2 ** o.width, dtype=complex)
+        sv[-1] = 1.0
+        return cirq_sim(10 if mixed else None).simulate(o, initial_statevector=sv, return_statevector=not mixed)
+    if form == "desired":
+        return cirq_sim(None).simulate(o, desired_meas_result="0" * o.counts.get("MEASURE", 0), return_statevector=True)
+    if form == "savemid":
+        return cirq_sim(10).simulate(o, save_mid_circuit_meas=True)
+    if mixed:
+        return cirq_sim(10).simulate(o)
+    return cirq_sim(None).simulate(o, return_statevector=True)
 
 
 def apply(heap, act):
@@ -150,14 +194,9 @@ def apply(heap, act):
             else:
                 getattr(o, FN[op])(**kw)
         elif op == "translate":
-            translate_circuit(o, act["fmt"])
+            do_translate(o, act["fmt"])
         elif op == "simulate":
-            if o.is_mixed_state:
-                import numpy as np
-                np.random.seed(1)
-                cirq_sim(10).simulate(o)
-            else:
-                cirq_sim(None).simulate(o, return_statevector=True)
+            do_simulate(o, act.get("form", ""))
         elif op == "depth":
             o.depth()
         elif op == "iterate":
@@ -209,10 +248,10 @@ def diff_label(a, b):
 
 
 # ------------------------------------------------------------------------------------------------------
-def gen_cfg(nslots, depth, ops, rich, export="leaf", frame=True, thin=1):
-    return ("CONSTANTS M = %d\nNSlots = %d\nMaxDepth = %d\nOps = {%s}\nRich = %s\nExport = \"%s\"\nThin = %d\nINIT Init\nNEXT Next\n"
-            "INVARIANT ExportLeaf\n%s" % (M, nslots, depth, ", ".join('"%s"' % o for o in ops),
-                                           "TRUE" if rich else "FALSE", export, thin,
+def gen_cfg(nslots, depth, ops, rich, export="leaf", frame=True, thin=1, prefix="PrefixNone"):
+    return ("CONSTANTS M = %d\nNSlots = %d\nMaxDepth = %d\nOps = {%s}\nRich = %s\nExport = \"%s\"\nThin = %d\nPrefix <- %s\n"
+            "INIT Init\nNEXT Next\nINVARIANT ExportLeaf\n%s" % (M, nslots, depth, ", ".join('"%s"' % o for o in ops),
+                                           "TRUE" if rich else "FALSE", export, thin, prefix,
                                            "INVARIANT MetaConsistent\nPROPERTY FrameOK\nPROPERTY ReadOnlyOK\n" if frame else ""))
 
 
@@ -220,15 +259,20 @@ def plan(chk):
     q = chk.quick
     runs = []
 
-    def add(name, nslots, maxdepth, ops, rich, thin=1, **kw):
+    def add(name, nslots, maxdepth, ops, rich, thin=1, prefix="PrefixNone", **kw):
         if "simulate" in kw:
             kw["depth"] = maxdepth + 2
-        runs.append((name, nslots, dict(module="C11CircuitObject", cfg=gen_cfg(nslots, maxdepth, ops, rich, frame="simulate" not in kw, thin=thin),
+        runs.append((name, nslots, dict(module="C11CircuitObject", cfg=gen_cfg(nslots, maxdepth, ops, rich, frame="simulate" not in kw, thin=thin,
+                                                                              prefix=prefix),
                                         name="c11/" + name, timeout=7200, heap="3g", **kw)))
     ops_nonew = [o for o in ALL_OPS if o != "new"]
     core = ["add", "addbad", "concat", "copy", "trim", "reindex", "translate", "merge", "repeat", "inverse", "redundant"]
     add("bfs1_rich", 2, 1, ops_nonew, True, workers=4)
     add("bfs2_core", 2, 2, core if q else ops_nonew, False, thin=8 if q else 1, workers=6)
+    # scenario: two successive in-place index rewritings (reindex up / sparse, reindex down, trim) and then every
+    # width-sensitive operation (copy, inverse, *, add_gate at the boundaries, remove_*, +, stack), on fixed and free objects
+    add("bfs3_index", 2, 3, ["reindex", "trim", "add", "copy", "inverse", "repeat", "small", "redundant", "concat", "stack"], False,
+        thin=3 if q else 1, prefix="PrefixIndex2", workers=6)
     if not q:
         add("bfs2_rich", 2, 2, core + ["small", "simplify", "stack", "split"], True, thin=3, workers=8)
         add("bfs3_small", 2, 3, ["add", "copy", "trim", "reindex", "translate", "redundant", "concat"], False, thin=8, workers=8)
@@ -416,7 +460,7 @@ def judge_and_report(chk, jobs, info, part):
         for (k, clause, slot, prov) in v:
             st = job["steps"][k - 1]
             act = st["act"]
-            op = act["op"] + ("(%s)" % act["fmt"] if act.get("fmt") else "")
+            op = act["op"] + ("(%s)" % act["fmt"] if act.get("fmt") else "") + ("(%s)" % act["form"] if act["op"] == "simulate" and act.get("form") else "")
             key = "%s:%s" % (op, clause)
             if clause in ("frame", "state-changed-on-raise") and slot >= 1 and k >= 2:
                 key += ":" + diff_label(job["steps"][k - 2]["heap"][slot - 1], st["heap"][slot - 1])
